@@ -1,0 +1,144 @@
+//go:build verif
+
+// Contracts for the VC generator in /verif (comment-only; compiled only with
+// the build tag verif, and even then it adds no code). Syntax: DESIGN.md §3.3.
+
+package oj
+
+//@ unit jsonfsm
+
+// ---------------------------------------------------------------------------
+// Error constructors.
+
+//@ func (*tracker).newError
+//@   requires 0 <= off && off <= 1099511627776 && -2305843009213693952 <= t.noff && t.noff < off
+//@   ensures [C09 pos] result != nil && typeis(result, ParseError, ptr)
+//@   ensures [C09 pos] as(result, ParseError).Line == t.line && as(result, ParseError).Column == off - t.noff
+
+//@ func (*tracker).byteError
+//@   requires 0 <= off && off <= 1099511627776 && -2305843009213693952 <= t.noff && t.noff < off
+//@   ensures [C09 pos] result != nil && typeis(result, ParseError, ptr)
+//@   ensures [C09 pos] as(result, ParseError).Line == t.line && as(result, ParseError).Column == off - t.noff
+
+// ---------------------------------------------------------------------------
+// Relation between the Validator's concrete state and the specification
+// automaton state q after the same prefix (n bytes of the stream).
+
+//@ pred EqButOff(a, b) = a.Ph == b.Ph && a.Kinds == b.Kinds && a.Key == b.Key && a.Lit == b.Lit && a.K == b.K
+//@     && a.Line == b.Line && a.LastNL == b.LastNL && a.Multi == b.Multi && a.ErrOff == b.ErrOff && a.Docs == b.Docs
+
+//@ pred TopIs(q, kind) = q.Kinds.Len() > 0 && q.Kinds.Top() == kind
+
+//@ pred VNext(p, q) = (q.Key ==> ident(p.nextMode, colonMap)) && (!q.Key ==> ident(p.nextMode, afterMap)) && (q.Key ==> TopIs(q, spec.Obj))
+
+//@ pred VMode(p, q) =
+//@        (q.Ph == spec.DocStart ==> ident(p.mode, valueMap) && q.Kinds.Len() == 0)
+//@     && (q.Ph == spec.DocEnd   ==> ident(p.mode, spaceMap) && q.Kinds.Len() == 0 && !q.Multi)
+//@     && (q.Ph == spec.ArrFirst ==> ident(p.mode, valueMap) && TopIs(q, spec.Arr))
+//@     && (q.Ph == spec.ArrNext  ==> ident(p.mode, commaMap) && TopIs(q, spec.Arr))
+//@     && (q.Ph == spec.ObjFirst ==> ident(p.mode, key1Map) && TopIs(q, spec.Obj))
+//@     && (q.Ph == spec.ObjKey   ==> ident(p.mode, keyMap) && TopIs(q, spec.Obj))
+//@     && (q.Ph == spec.ObjColon ==> ident(p.mode, colonMap) && TopIs(q, spec.Obj))
+//@     && (q.Ph == spec.ObjValue ==> ident(p.mode, valueMap) && TopIs(q, spec.Obj))
+//@     && (q.Ph == spec.After    ==> ident(p.mode, afterMap) && q.Kinds.Len() > 0)
+//@     && (q.Ph == spec.Str      ==> ident(p.mode, stringMap) && VNext(p, q))
+//@     && (q.Ph == spec.StrEsc   ==> ident(p.mode, escMap) && VNext(p, q))
+//@     && (q.Ph == spec.StrU     ==> ident(p.mode, uMap) && VNext(p, q) && p.ri == q.K && 0 <= q.K && q.K <= 3)
+//@     && (q.Ph == spec.NumNeg   ==> ident(p.mode, negMap))
+//@     && (q.Ph == spec.NumZero  ==> ident(p.mode, zeroMap))
+//@     && (q.Ph == spec.NumInt   ==> ident(p.mode, digitMap))
+//@     && (q.Ph == spec.NumDot   ==> ident(p.mode, dotMap))
+//@     && (q.Ph == spec.NumFrac  ==> ident(p.mode, fracMap))
+//@     && (q.Ph == spec.NumE     ==> ident(p.mode, expSignMap))
+//@     && (q.Ph == spec.NumESign ==> ident(p.mode, expZeroMap))
+//@     && (q.Ph == spec.NumExp   ==> ident(p.mode, expMap))
+//@     && (q.Ph == spec.Lit ==> p.ri == q.K - 1 && 1 <= q.K && q.K < spec.LitLen(q.Lit)
+//@            && (q.Lit == spec.LitNull ==> ident(p.mode, nullMap)) && (q.Lit == spec.LitTrue ==> ident(p.mode, trueMap))
+//@            && (q.Lit == spec.LitFalse ==> ident(p.mode, falseMap)) && 0 <= q.Lit && q.Lit <= 2)
+//@     && spec.DocStart <= q.Ph && q.Ph < spec.Err
+
+//@ pred VStack(p, q) = len(p.stack) == q.Kinds.Len()
+//@     && (forall i: 0 <= i && i < len(p.stack) ==> (p.stack[i] == '{' && q.Kinds[i] == spec.Obj) || (p.stack[i] == '[' && q.Kinds[i] == spec.Arr))
+
+//@ pred VRel(p, q, n, base) = VMode(p, q) && VStack(p, q) && q.Off == n && q.Multi == !p.OnlyOne
+//@     && p.line == q.Line && p.noff == q.LastNL - base && 1 <= q.Line && q.Line <= n + 1 && -1 <= q.LastNL && q.LastNL < n
+
+// An error result points at offset k of the buffer: the spec automaton is
+// still alive after base+k bytes, and either byte k kills it (first offending
+// byte) or k is the end of the last buffer and the text is incomplete.
+//@ pred VErr(pe, k, qi, S, base, n, last) = 0 <= k && k <= n
+//@     && spec.Run(qi, S, base+k).Ph != spec.Err
+//@     && pe.Line == spec.Run(qi, S, base+k).Line && pe.Column == base + k - spec.Run(qi, S, base+k).LastNL
+//@     && (k < n ==> spec.Run(qi, S, base+k+1).Ph == spec.Err)
+//@     && (k == n ==> last && !spec.AcceptEOF(spec.Run(qi, S, base+k)))
+
+// ---------------------------------------------------------------------------
+
+//@ func (*Validator).validateBuffer
+//@   ghost S seq, base int, qi spec.JState
+//@   opt stream = buf, S, base
+//@   requires 0 <= base && base + len(buf) <= 1152921504606846976
+//@   requires VRel(p, spec.Run(qi, S, base), base, base)
+//@   requires [own] arrid(p.stack) != arrid(buf)
+//@   modifies p.stack, p.ri, p.mode, p.nextMode, p.line, p.noff, heap(p.stack)
+//@   ensures [C01 sim] result == nil ==> VRel(p, spec.Run(qi, S, base+len(buf)), base+len(buf), base)
+//@   ensures [C01 accept] result == nil && last ==> spec.AcceptEOF(spec.Run(qi, S, base+len(buf)))
+//@   ensures [C01 C09 reject] result != nil ==> typeis(result, ParseError, ptr) && VErr(as(result, ParseError), as(result, ParseError).Column + p.noff, qi, S, base, len(buf), last)
+//@   ensures [C07 own] arrid(p.stack) == old(arrid(p.stack)) || fresh(p.stack)
+//@   loop 0
+//@     invariant 0 <= off && off <= len(buf) && depth == len(p.stack)
+//@     invariant [C07 own] arrid(p.stack) == old(arrid(p.stack)) || fresh(p.stack)
+//@     invariant [C01 sim] VRel(p, spec.Run(qi, S, base+off), base+off, base)
+//@     variant len(buf) - off
+//@     split spec.Run(qi, S, base+off).Ph in spec.DocStart, spec.DocEnd, spec.ArrFirst, spec.ArrNext, spec.ObjFirst, spec.ObjKey, spec.ObjColon,
+//@        spec.ObjValue, spec.After, spec.Str, spec.StrEsc, spec.StrU, spec.NumNeg, spec.NumZero, spec.NumInt, spec.NumDot, spec.NumFrac,
+//@        spec.NumE, spec.NumESign, spec.NumExp, spec.Lit
+//@     use spec.Run.unfold(qi, S, base+off, 5)
+//@   loop 1
+//@     let o1 = off + 1
+//@     let i0 = i
+//@     let b0 = b
+//@     let R1 = spec.Run(qi, S, base+off+1)
+//@     invariant -1 <= $k && $k <= $n - 1
+//@     invariant $k >= 0 ==> i == $k && b == $s[$k]
+//@     invariant $k == -1 ==> i == i0 && b == b0
+//@     invariant $k >= 0 ==> spaceMap[b] == skipChar
+//@     invariant [C01 sim] EqButOff(spec.Run(qi, S, base+o1+$k+1), R1) && spec.Run(qi, S, base+o1+$k+1).Off == base+o1+$k+1
+//@     invariant [C01 sim] $k >= 0 ==> EqButOff(spec.Run(qi, S, base+o1+$k), R1) && spec.Run(qi, S, base+o1+$k).Off == base+o1+$k
+//@     use spec.Run.unfold(qi, S, base+o1+$k+1)
+//@   loop 2
+//@     let o1 = off + 1
+//@     let i0 = i
+//@     let b0 = b
+//@     let R1 = spec.Run(qi, S, base+off+1)
+//@     invariant -1 <= $k && $k <= $n - 1
+//@     invariant $k >= 0 ==> i == $k && b == $s[$k]
+//@     invariant $k == -1 ==> i == i0 && b == b0
+//@     invariant $k >= 0 ==> stringMap[b] == strOk
+//@     invariant [C01 sim] EqButOff(spec.Run(qi, S, base+o1+$k+1), R1) && spec.Run(qi, S, base+o1+$k+1).Off == base+o1+$k+1
+//@     invariant [C01 sim] $k >= 0 ==> EqButOff(spec.Run(qi, S, base+o1+$k), R1) && spec.Run(qi, S, base+o1+$k).Off == base+o1+$k
+//@     use spec.Run.unfold(qi, S, base+o1+$k+1)
+//@   loop 3
+//@     let o1 = off + 1
+//@     let i0 = i
+//@     let b0 = b
+//@     let R1 = spec.Run(qi, S, base+off+1)
+//@     invariant -1 <= $k && $k <= $n - 1
+//@     invariant $k >= 0 ==> i == $k && b == $s[$k]
+//@     invariant $k == -1 ==> i == i0 && b == b0
+//@     invariant $k >= 0 ==> stringMap[b] == strOk
+//@     invariant [C01 sim] EqButOff(spec.Run(qi, S, base+o1+$k+1), R1) && spec.Run(qi, S, base+o1+$k+1).Off == base+o1+$k+1
+//@     invariant [C01 sim] $k >= 0 ==> EqButOff(spec.Run(qi, S, base+o1+$k), R1) && spec.Run(qi, S, base+o1+$k).Off == base+o1+$k
+//@     use spec.Run.unfold(qi, S, base+o1+$k+1)
+//@   loop 4
+//@     let o1 = off + 1
+//@     let i0 = i
+//@     let b0 = b
+//@     let R1 = spec.Run(qi, S, base+off+1)
+//@     invariant -1 <= $k && $k <= $n - 1
+//@     invariant $k >= 0 ==> i == $k && b == $s[$k]
+//@     invariant $k == -1 ==> i == i0 && b == b0
+//@     invariant $k >= 0 ==> spaceMap[b] == skipChar
+//@     invariant [C01 sim] EqButOff(spec.Run(qi, S, base+o1+$k+1), R1) && spec.Run(qi, S, base+o1+$k+1).Off == base+o1+$k+1
+//@     invariant [C01 sim] $k >= 0 ==> EqButOff(spec.Run(qi, S, base+o1+$k), R1) && spec.Run(qi, S, base+o1+$k).Off == base+o1+$k
+//@     use spec.Run.unfold(qi, S, base+o1+$k+1)
